@@ -44,6 +44,7 @@ def worker(args, scratch):
     cnt = res["counts"]
     lock = threading.Lock()
     registry = {}
+    registry_long_ref = {}
 
     def bump(k, n=1):
         with lock:
@@ -55,7 +56,7 @@ def worker(args, scratch):
 
     def handler(name, req):
         vid = (req.header("x-vf-id") or b"").decode()
-        spec = registry.get(vid)
+        spec = registry.get(vid) or registry_long_ref.get(vid)
         if spec is None:
             return {"status": 200, "body": b"unregistered"}
         return spec
@@ -92,7 +93,7 @@ def worker(args, scratch):
                     if exempt:
                         method, target = rr.choice([("PUT", "/vmAgentLog"), ("POST", "/machine/?comp=telemetrydata")])
                     else:
-                        target = rr.choice(["/", "/a/b?x=1&y=2", "/machine?comp=goalstate", "/p%20q/R?Z=%41"]) + ("" if rr.random() < 0.5 else "&" * 0)
+                        target = rr.choice(["/", "/a/b?x=1&y=2", "/machine?comp=goalstate", "/p%20q/R?Z=%41", "/q?text=Loading...&range=1..5", "/s?path=../x&v=a..b"]) + ("" if rr.random() < 0.5 else "&" * 0)
                     hs = gen_http.headers(rr)
                     if rr.random() < 0.15:
                         hs += [("X-Rep", "one"), ("x-rep", "two")]
@@ -213,6 +214,29 @@ def worker(args, scratch):
             if len(res["samples"]) < 3:
                 with lock:
                     res["samples"].append(wit)
+        # one connection that stays in use for more than ten seconds (requests at 0, 4, 8 and 12 s after it was accepted), alongside the rest
+        long_lived_result = []
+
+        def long_lived():
+            try:
+                conn = w.open("imds", root, timeout=60)
+                for k, pause in enumerate([0, 4, 4, 4]):
+                    time.sleep(pause)
+                    vid = "c14-%d-long-%d" % (args["shard"], k)
+                    spec = {"status": 200, "reason": "R", "headers": [("x-vf-resp", vid)], "body": vid.encode() + b"|long-lived", "framing": "cl"}
+                    with lock:
+                        registry_long[vid] = spec
+                    conn.send(rawhttp.build_request("GET", "/long/%d?k=v" % k, [("x-vf-id", vid)]))
+                    resp = conn.read_response(b"GET")
+                    long_lived_result.append((vid, spec, resp))
+                conn.close()
+            except Exception as e:  # noqa
+                long_lived_result.append(("error", repr(e), common.is_timeout(e)))
+        registry_long = registry_long_ref
+        lt = None
+        if args["shard"] % 4 == 1 and not args.get("memcheck"):
+            lt = threading.Thread(target=long_lived)
+            lt.start()
         total = args["connections"]
         conc = args["concurrency"]
         idx = 0
@@ -224,7 +248,19 @@ def worker(args, scratch):
             registry.clear()
             for m in w.mocks.values():
                 with m.lock:
-                    m.requests.clear(); m.conn_raw.clear()
+                    m.requests[:] = [q for q in m.requests if b"-long-" in (q.header("x-vf-id") or b"")]; m.conn_raw.clear()
+        if lt is not None:
+            lt.join()
+            for item in long_lived_result:
+                if item[0] == "error":
+                    if item[2]:
+                        res.setdefault("inconclusive", []).append("client socket watchdog fired on the long-lived connection; not a verdict")
+                    else:
+                        viol("exchange-failed", {"conn": "long-lived (12 s)", "err": item[1]})
+                    continue
+                vid, spec, resp = item
+                check(vid, "GET", "/long/%s?k=v" % vid.rsplit("-", 1)[1], [("x-vf-id", vid)], b"", None, spec, resp, "imds", 1, False)
+                bump("requests_on_a_connection_older_than_10s" if vid.endswith("-3") else "requests_on_the_long_lived_connection")
         for p in w.shim.panics():
             viol("panic:%s" % p.get("location"), p)
     finally:
